@@ -46,6 +46,39 @@ pub fn suite_c11(ctx: &mut Ctx) {
         xs.sort();
         xs.dedup();
     }
+    // quick tier: the patterns left out of the coset are screened -- all ten functions on every remaining pattern
+    // against the f64 value rounded by `from_f64`; a disagreement only selects the input for judgement
+    if stride > 1 {
+        let have: std::collections::HashSet<u64> = xs.iter().copied().collect();
+        let pi = std::f64::consts::PI;
+        for a in 0..65536u64 {
+            if have.contains(&a) || a == 0x8000 {
+                continue;
+            }
+            let v = if a == 0 { 0.0 } else { gen::to_f64_exact(16, 1, a) };
+            let r = v % 2.0; // exact
+            for f in F16 {
+                let want = match f {
+                    "exp" => v.exp(),
+                    "exp2" => v.exp2(),
+                    "ln" => v.ln(),
+                    "log2" => v.log2(),
+                    "sin_pi" => (pi * r).sin(),
+                    "cos_pi" => (pi * r).cos(),
+                    "tan_pi" => (pi * r).tan(),
+                    "asin_pi" => v.asin() / pi,
+                    "acos_pi" => v.acos() / pi,
+                    _ => v.atan() / pi,
+                };
+                ctx.sink.screened += 1;
+                let w = if want.is_nan() { 0x8000 } else { softposit::P16E1::from_f64(want).to_bits() as u64 };
+                if peek(&P16T, f, &[a]) != Some(w) {
+                    *ctx.sink.per_op.entry(format!("screen-selected:p16.{}", f)).or_insert(0) += 1;
+                    ctx.call(&P16T, f, "m", &[a]);
+                }
+            }
+        }
+    }
     for (i, &a) in xs.iter().enumerate() {
         for f in F16 {
             ctx.call(&P16T, f, "m", &[a]);
